@@ -114,6 +114,46 @@ TECHNIQUE = ("Coq proof: generic first-representative clustering theory + refine
              "by vm_compute; independent brute-force oracle")
 
 
+def _mixed_value(a):
+    """The Python value of a mixed-mode attribute description (round 4): {"s": str} | {"l": [int], "tuple": bool} |
+    {"d": [[k, v], ...], "od": bool} (dict / OrderedDict in that insertion order) | {"i": int} | None (attribute absent)."""
+    if "s" in a:
+        return a["s"]
+    if "l" in a:
+        return tuple(a["l"]) if a.get("tuple") else list(a["l"])
+    if "d" in a:
+        from collections import OrderedDict
+        return OrderedDict((k, v) for k, v in a["d"]) if a.get("od") else {k: v for k, v in a["d"]}
+    return a["i"]
+
+
+def _mixed_norm(a):
+    """Reference reading of a mixed-mode attribute: every value on its own -- str / int by value, list and tuple as multisets, dict
+    and OrderedDict by their sorted keys (coarser than the items: harmless for a pre-filter), absent = absent."""
+    if a is None:
+        return ("absent",)
+    if "s" in a:
+        return ("s", a["s"])
+    if "l" in a:
+        return ("l", tuple(sorted(a["l"])))
+    if "d" in a:
+        return ("d", tuple(sorted(k for k, _ in a["d"])))          # the code reads a dict as sorted(value): its sorted KEYS
+    return ("i", a["i"])
+
+
+def _mixed_coq(a):
+    if a is None:
+        return clist([cZ(2)])
+    if "s" in a:
+        return clist([cZ(0)] + [cZ(ord(c)) for c in a["s"]])
+    if "l" in a:
+        return clist([cZ(1)] + [cZ(x) for x in a["l"]])
+    if "d" in a:
+        return clist([cZ(3)] + [cZ(k) for k, _ in a["d"]])                 # a dict is read as sorted(value): its keys
+    return clist([cZ(5), cZ(a["i"])])
+
+
+FIRST_ITEM_FREE = True      # /repo (round 4): GraphCluster normalises every attribute value on its own, like BatchCluster
 ATTR_KEY = "att"
 ATTR_KEY2 = "att2"
 DEF_CFG = {"names": ["element", "charge"], "defaults": ["*", 0], "edge": "order"}
@@ -280,7 +320,10 @@ class _World:
             # list-valued attributes may be handed over as tuples ("as_tuple"): GraphCluster reads every non-str value as a
             # multiset (sorted(value)); BatchCluster must read it the same way (/repo fix after 6f9daf3, see known_findings.d)
             if a is None:
-                d.pop(key, None)         # attribute ABSENT on this entry (str mode; the first entry of a GraphCluster call has one)
+                d.pop(key, None)         # attribute ABSENT on this entry
+                continue
+            if self.mode == "mixed":
+                d[key] = _mixed_value(a)
                 continue
             d[key] = (tuple(a) if self.case["items"][j].get("as_tuple") else list(a)) if isinstance(a, list) else a
 
@@ -342,7 +385,7 @@ class _World:
             gc = self.gc()
             ak = self.key(op)
             ents = [self.use(i) for i in op[1]]
-            attrs = None if ak is None else [e[ak] for e in ents]
+            attrs = None if ak is None else [e.get(ak) for e in ents]
             if not op[2]:
                 nmf = emf = None
             elif self.explicit_matchers() is not None:
@@ -577,6 +620,14 @@ def _in_domain(case):
             a = it["attr"]
             if case["attr_mode"] == "str" and a is None:
                 continue
+            if case["attr_mode"] == "mixed":
+                if a is None:
+                    continue
+                if "s" in a and not all(ord(c) < 128 for c in a["s"]):
+                    return False
+                if "d" in a and not all(isinstance(k, int) and isinstance(v, int) and 0 <= k < 1000 and 0 <= v < 1000 for k, v in a["d"]):
+                    return False
+                continue
             if case["attr_mode"] == "str" and not (isinstance(a, str) and all(ord(c) < 128 for c in a)):
                 return False
             if case["attr_mode"] == "list" and not (isinstance(a, list) and all(isinstance(x, int) and not isinstance(x, bool) for x in a)):
@@ -629,6 +680,8 @@ def _coq_item(idx, it, case, I):
     a = it["attr"]
     if case["attr_mode"] == "none":
         att = "[]"
+    elif case["attr_mode"] == "mixed":
+        att = _mixed_coq(a)
     elif case["attr_mode"] == "str":
         att = clist([cZ(-1)]) if a is None else clist([cZ(ord(c)) for c in a])      # absent attribute: a value no string has
     else:
@@ -674,7 +727,7 @@ def coq_case(case):
                 if a.get(k) is not None:
                     vals.append(a[k])
     I = G.Intern(vals)
-    mode = {"none": "ANone", "str": "AStr", "list": "AList"}[case["attr_mode"]]
+    mode = {"none": "ANone", "str": "AStr", "list": "AList", "mixed": "AMixed"}[case["attr_mode"]]
     pool = clist([_coq_item(i, it, case, I) for i, it in enumerate(case["items"])])
     main = [o for o in case["ops"] if o[0] not in EXTRA_OPS]
     extra = [o for o in case["ops"] if o[0] in EXTRA_OPS]
@@ -778,6 +831,8 @@ def _partition(classes):
 
 def _ref_key(case, i, nokey=False):
     a = case["items"][i]["attr"]
+    if case["attr_mode"] == "mixed" and not nokey:
+        return _mixed_norm(a)
     if a is None and case["attr_mode"] == "str" and not nokey:
         return ("<absent>",)             # the entry carries no pre-grouping attribute at all (entry.get(key) is None)
     return None if (case["attr_mode"] == "none" or nokey) else (a if isinstance(a, str) else tuple(sorted(a)))
@@ -1104,7 +1159,11 @@ def oracle(case):
                                   "returned templates" % (k, c, i)))
                 break
 
-    _play(case, on_op)
+    try:
+        _play(case, on_op)
+    except (TypeError, KeyError, AttributeError) as e:
+        # an exception that is not part of the contract: the clustering did not assign classes at all
+        fails.append(dict(clause="partition", detail="a clustering call raised %s: %s" % (type(e).__name__, str(e)[:120])))
     if fails:
         return fails[:3]
     # order independence, stated directly: re-run every one-shot call on the reversed and on a rotated list (fresh objects)
@@ -1117,11 +1176,16 @@ def oracle(case):
         done.add(tuple(op[1]))
         base = None
         for perm in (list(range(len(op[1]))), list(reversed(range(len(op[1])))), list(range(1, len(op[1]))) + [0]):
-            if case["attr_mode"] == "str" and case["items"][op[1][perm[0]]]["attr"] is None:
-                continue        # GraphCluster needs the FIRST entry's attribute to tell how attributes are compared (domain)
+            if case["attr_mode"] == "str" and case["items"][op[1][perm[0]]]["attr"] is None and not FIRST_ITEM_FREE:
+                continue        # before /repo fix: GraphCluster needed the FIRST entry's attribute to tell how attributes are compared
             W = _World(dict(case, shared=False, obj=None))
             data = [W.use(op[1][p]) for p in perm]
-            W.gc().fit(data, W.rk, W.key(op))
+            try:
+                W.gc().fit(data, W.rk, W.key(op))
+            except (TypeError, KeyError, AttributeError) as e:
+                fails.append(dict(clause="order-independent", detail="gc_fit on %r in another order raised %s: %s"
+                                  % (op[1], type(e).__name__, str(e)[:100])))
+                break
             lab = [None] * len(perm)
             for p, d in zip(perm, data):
                 lab[p] = d["class"]
@@ -2055,12 +2119,53 @@ def gen_cases(tier, rng):
         keep = [j for j in range(size) if j not in cls]
         order = list(range(size))
         rng.shuffle(order)
-        order.remove(keep[0])
-        order.insert(0, keep[0])
+        if not FIRST_ITEM_FREE:
+            order.remove(keep[0])
+            order.insert(0, keep[0])
         c = dict(kind="options/absent-attr", attr_mode="str", invariant=True, items=items, ops=[])
         style(c, 0.5, False)
         raw = [["gc_fit", order], ["fit", order, rng.choice([1, 2, 3])], ["reset"], ["cluster", order[::-1]], ["reset"],
                ["lib_check", cls[0]], ["lib_check", keep[0]]] + [["lib_check", j] for j in order[1:4]] + [["fit", order, None]]
+        got = finish(c, raw, extras=False)
+        if got is not None:
+            rest.append(got)
+    # mixed attribute forms inside one list (round 4): every isomorphism class gets its own FORM of invariant attribute -- a str, a
+    # list / tuple presented in another order on every item, a dict / OrderedDict presented in another insertion order, an int,
+    # or no attribute at all -- and the list order is random (any form may come first)
+    for t in range(90 if quick else 600):
+        base = rng.sample(small_corpus if rng.random() < 0.6 else synth, rng.randint(2, 4))
+        size = rng.randint(4, 9)
+        items = _pool(rng, base, size)
+        reps, forms = [], []
+        for it in items:
+            for r, (g0, f0) in enumerate(zip(reps, forms)):
+                if ref_iso(it["g"], g0):
+                    form = f0
+                    break
+            else:
+                form = rng.choice(["s", "l", "l", "t", "lt", "d", "od", "i", "absent", "absent"])
+                reps.append(it["g"])
+                forms.append(form)
+            sig = _signature(it["g"])
+            els = [ord(c) % 50 for c in sig][:6]
+            if form == "s":
+                it["attr"] = {"s": sig}
+            elif form in ("l", "t", "lt"):
+                it["attr"] = {"l": rng.sample(els, len(els)), "tuple": form == "t" or (form == "lt" and rng.random() < 0.5)}
+            elif form in ("d", "od"):
+                pairs = sorted({(k, v) for k, v in zip(els, els[1:] + els[:1])})
+                pairs = [list(p_) for p_ in {k: v for k, v in pairs}.items()]
+                it["attr"] = {"d": rng.sample(pairs, len(pairs)), "od": form == "od"}
+            elif form == "i":
+                it["attr"] = {"i": sum(els)}
+            else:
+                it["attr"] = None
+        order = list(range(size))
+        rng.shuffle(order)
+        c = dict(kind="options/mixed-attr", attr_mode="mixed", invariant=True, items=items, ops=[])
+        style(c, 0.5, False)
+        raw = [["gc_fit", order], ["gc_iter", order[::-1], True], ["fit", order, rng.choice([1, 2, 3])], ["reset"],
+               ["cluster", order[::-1]], ["reset"], ["fit", order, None], ["lib_check", order[0]], ["lib_check", order[-1]]]
         got = finish(c, raw, extras=False)
         if got is not None:
             rest.append(got)
